@@ -110,7 +110,8 @@ def seeded_runs(pid: str, repo: str, jobs: int = 8):
                 if " rule=" in ln:
                     rule = ln.split(" rule=")[1].split(":")[0]
                     break
-            out.append(dict(seed=name, expect="refute", got={0: "silent", 1: "refute"}.get(r.returncode, "error"), rule=rule,
+            out.append(dict(seed=name, expect=meta.get("expect", "refute"),
+                            got={0: "silent", 1: "refute"}.get(r.returncode, "error"), rule=rule,
                             primary=(meta.get("property") == pid)))
         finally:
             shutil.rmtree(d, ignore_errors=True)
@@ -249,7 +250,7 @@ if __name__ == "__main__":
     repo_ = sys.argv[2] if len(sys.argv) > 2 else "/repo"
     bad = 0
     for r_ in seeded_runs(pid_, repo_):
-        ok = r_["got"] == "refute" or not r_.get("primary", True)
+        ok = r_["got"] == "refute" or not r_.get("primary", True) or r_.get("expect") == "missed"
         bad += not ok
         print("seeded  ", "ok " if ok else "BAD", r_)
     for rs_ in (False, True):
